@@ -1,2 +1,319 @@
 import DuneVerif.Common.Proto
-def main : IO Unit := DV.runDriver fun _ => "bad-op"
+import DuneVerif.Model.C11
+/-! line-protocol driver for C11:  `<container> <params> : op;op;op`  (see harness/cxx_c11.cc for the op language).
+    One observation per op, joined by `;`.  Ops outside their precondition are observed as `skip`. -/
+open DV DV.C11
+
+namespace C11Drv
+
+def tf (b : Bool) : String := if b then "t" else "f"
+
+/-- the harness' `isInt`: optional '-', then 1..8 digits, at most 9 characters -/
+def int? (s : String) : Option Int :=
+  let cs := s.toList
+  let (neg, ds) := match cs with
+    | '-' :: r => (true, r)
+    | _ => (false, cs)
+  if ds.isEmpty || cs.length > 9 || !(ds.all Char.isDigit) then none
+  else
+    let n := ds.foldl (fun acc c => acc * 10 + (c.toNat - '0'.toNat)) 0
+    some (if neg then -(n : Int) else (n : Int))
+
+def nat? (s : String) : Option Nat :=
+  if s.toList.head? == some '-' then none else (int? s).map Int.toNat
+
+def bits? (B : Nat) (s : String) : Option (List Bool) :=
+  let cs := s.toList
+  if cs.length == B && cs.all (fun c => c == '0' || c == '1') then some (cs.map (· == '1')) else none
+
+def flag? (s : String) : Option Bool := if s == "0" then some false else if s == "1" then some true else none
+
+/-- `[1,2,3]` with every entry passing `int?` -/
+def list? (s : String) : Option (List Int) :=
+  let cs := s.toList
+  if cs.length < 2 || cs.head? != some '[' || cs.getLast? != some ']' then none
+  else if cs.length == 2 then some []
+  else ((String.ofList ((cs.drop 1).dropLast)).splitOn ",").mapM int?
+
+def showO (o : Option Int) : String := match o with | some v => toString v | none => "?"
+def bitsStr (b : List Bool) : String := String.ofList (b.map fun x => if x then '1' else '0')
+def strList (l : List String) : String := "[" ++ ",".intercalate l ++ "]"
+
+/-- split `head : ops` exactly as the harness does -/
+def parseCase (line : String) : List String × List (List String) :=
+  match line.splitOn " :" with
+  | [] => ([], [])
+  | h :: rest =>
+    let r := " :".intercalate rest
+    let ops := if (tokens r).isEmpty then [] else (r.splitOn ";").map tokens
+    (tokens h, ops)
+
+/-- run a history: `f state op = (state', observation)` -/
+def runOps {σ : Type} (f : σ → List String → σ × String) (s : σ) (ops : List (List String)) : String :=
+  let (_, obs) := ops.foldl (fun (acc : σ × List String) o => let r := f acc.1 o; (r.1, r.2 :: acc.2)) (s, [])
+  ";".intercalate obs.reverse
+
+/-! ### ArrayList -/
+structure ALW where
+  s : AL.State Int
+  held : List Nat
+
+def alObs (N : Nat) (w : ALW) (res : String) : String :=
+  let heldS := w.held.map fun p => if p == AL.endPos w.s then "E" else showO (AL.elementAt N w.s p)
+  s!"{w.s.size} {strList ((AL.view N w.s).map showO)} {res} {strList heldS}"
+
+def alStep (N : Nat) (w : ALW) (o : List String) : ALW × String :=
+  let skip := (w, "skip")
+  let done (w' : ALW) (res : String) := (w', alObs N w' res)
+  let run (op : AL.Op Int) : AL.State Int := AL.step N 0 w.s op
+  match o with
+  | ["push", x] => match int? x with
+    | some x => done { w with s := run (.push x) } "-"
+    | none => skip
+  | ["erase", k] => match nat? k with
+    | some k =>
+      if (AL.Op.erase k : AL.Op Int).ok w.s then
+        let p := w.s.start + k
+        let s' := run (.erase k)
+        done ⟨s', w.held.filter (· > p)⟩ (if s'.size == 0 then "E" else showO (AL.elementAt N s' (AL.beginPos s')))
+      else skip
+    | none => skip
+  | ["purge"] => done ⟨run .purge, []⟩ "-"
+  | ["clear"] => done ⟨run .clear, []⟩ "-"
+  | ["get", k] => match nat? k with
+    | some k => if k < w.s.size then done w (showO (AL.get N w.s k)) else skip
+    | none => skip
+  | ["set", k, x] => match nat? k, int? x with
+    | some k, some x => if (AL.Op.set k x).ok w.s then done { w with s := run (.set k x) } "-" else skip
+    | _, _ => skip
+  | ["hold", k] => match nat? k with
+    | some k =>
+      if k ≤ w.s.size then
+        done { w with held := w.held ++ [w.s.start + k] } (if k < w.s.size then showO (AL.get N w.s k) else "E")
+      else skip
+    | none => skip
+  | ["idx", k, j] => match nat? k, nat? j with
+    | some k, some j => if k + j < w.s.size then done w (showO (AL.elementAt N w.s (j + (w.s.start + k)))) else skip
+    | _, _ => skip
+  | _ => skip
+
+/-! ### SLList -/
+structure SLW where
+  a : SL.World Int
+  b : SL.World Int
+
+def slSide (nm : String) (w : SL.World Int) : String :=
+  let ms := match w.m with
+    | none => "-"
+    | some m => if m.cur == SL.Ptr.null then "E" else showO (SL.mDeref w.s m)
+  s!"{nm}:{w.s.size},{tf (SL.isEmpty w.s)},{showList (SL.items w.s)},{ms}"
+
+def slObs (w : SLW) (res : String) : String :=
+  s!"{slSide "a" w.a} {slSide "b" w.b} {tf (SL.eq w.a.s w.b.s)}{tf (SL.ne w.a.s w.b.s)} {res}"
+
+def slStep (w : SLW) (o : List String) : SLW × String :=
+  let skip := (w, "skip")
+  match o with
+  | full :: args =>
+    let cs := full.toList
+    match cs with
+    | t :: '.' :: opc =>
+      if (t != 'a' && t != 'b') || opc.isEmpty then skip else
+      let isA := t == 'a'
+      let me := if isA then w.a else w.b
+      let other := if isA then w.b else w.a
+      let put (x : SL.World Int) : SLW := if isA then { w with a := x } else { w with b := x }
+      let doOp (op : SL.Op Int) : SLW × String :=
+        if op.ok me then let w' := put (SL.step me op); (w', slObs w' "-") else skip
+      match String.ofList opc, args with
+      | "pb", [x] => match int? x with | some x => doOp (.pushBack x) | none => skip
+      | "pf", [x] => match int? x with | some x => doOp (.pushFront x) | none => skip
+      | "pop", [] => doOp .popFront
+      | "clear", [] => doOp .clear
+      | "ia", [k, x] => match nat? k, int? x with | some k, some x => doOp (.insAfter k x) | _, _ => skip
+      | "dn", [k] => match nat? k with | some k => doOp (.delNext k) | none => skip
+      | "asg", [src] =>
+        if src == "a" || src == "b" then
+          if (src == "a") == isA then doOp .assignSelf else doOp (.assignFrom (SL.items other.s))
+        else skip
+      | "cc", [] =>
+        let c := SL.copy me.s
+        (w, slObs w (showList (SL.items c) ++ tf (SL.eq c me.s)))
+      | "mb", [] => doOp .mBegin
+      | "me", [] => doOp .mEnd
+      | "m+", [] => doOp .mInc
+      | "mi", [x] => match int? x with | some x => doOp (.mIns x) | none => skip
+      | "mr", [] => doOp .mRem
+      | _, _ => skip
+    | _ => skip
+  | [] => skip
+
+/-! ### ReservedVector -/
+structure RVW where
+  a : RV.State Int
+  b : RV.State Int
+
+def rvSide (nm : String) (s : RV.State Int) : String :=
+  let fr := if s.size == 0 then "-" else showO (RV.front s)
+  let bk := if s.size == 0 then "-" else showO (RV.back s)
+  s!"{nm}:{s.size},{showList (RV.abs s)},{fr},{bk}"
+
+def rvObs (w : RVW) (res : String) : String :=
+  let a := w.a
+  let b := w.b
+  let cmp := tf (RV.lt a b) ++ tf (RV.le a b) ++ tf (RV.gt a b) ++ tf (RV.ge a b) ++ tf (RV.eq a b) ++ tf (RV.ne a b)
+  s!"{rvSide "a" a} {rvSide "b" b} {cmp} {res}"
+
+def rvStep (n : Nat) (w : RVW) (o : List String) : RVW × String :=
+  let skip := (w, "skip")
+  match o with
+  | full :: args =>
+    match full.toList with
+    | t :: '.' :: opc =>
+      if (t != 'a' && t != 'b') || opc.isEmpty then skip else
+      let isA := t == 'a'
+      let me := if isA then w.a else w.b
+      let other := if isA then w.b else w.a
+      let put (x : RV.State Int) : RVW := if isA then { w with a := x } else { w with b := x }
+      let fin (x : RV.State Int) (res : String := "-") : RVW × String := let w' := put x; (w', rvObs w' res)
+      let doOp (op : RV.Op Int) : RVW × String := if op.ok n me then fin (RV.step n me op) else skip
+      match String.ofList opc, args with
+      | "push", [x] => match int? x with | some x => doOp (.push x) | none => skip
+      | "emp", [x] => match int? x with | some x => doOp (.push x) | none => skip
+      | "pop", [] => doOp .pop
+      | "clear", [] => doOp .clear
+      | "resize", [k] => match nat? k with | some k => doOp (.resize k) | none => skip
+      | "set", [i, x] => match nat? i, int? x with | some i, some x => doOp (.set i x) | _, _ => skip
+      | "at", [i] => match nat? i with
+        | some i => (w, rvObs w (match RV.at? me i with | some v => toString v | none => "ERR:Range"))
+        | none => skip
+      | "fill", [x] => match int? x with | some x => doOp (.fill x) | none => skip
+      | "swap", [] =>
+        let r := RV.swap me other
+        let w' : RVW := if isA then ⟨r.1, r.2⟩ else ⟨r.2, r.1⟩
+        (w', rvObs w' "-")
+      | "ctor", [] => fin (RV.empty n 0)
+      | "ctorc", [k] => match nat? k with
+        | some k => if k ≤ n then fin (RV.ofCount n 0 k) else skip
+        | none => skip
+      | "ctorv", [k, x] => match nat? k, int? x with
+        | some k, some x => if k ≤ n then fin (RV.ofCountValue n 0 k x) else skip
+        | _, _ => skip
+      | "init", [l] => match list? l with
+        | some l => if l.length ≤ n then fin (RV.ofList n 0 l) else skip
+        | none => skip
+      | _, _ => skip
+    | _ => skip
+  | [] => skip
+
+/-! ### BitSetVector -/
+def bvObs (B : Nat) (v : BV.Bits) (res : String) : String :=
+  let blocks := (List.range (BV.size B v)).map fun i => bitsStr (BV.getRepr B v i)
+  let masked := (List.range B).map fun j => BV.countmasked B v j
+  s!"{BV.size B v} {BV.count v} {strList blocks} {showList masked} {res}"
+
+def bvStep (B : Nat) (v : BV.Bits) (o : List String) : BV.Bits × String :=
+  let skip := (v, "skip")
+  let fin (v' : BV.Bits) (res : String := "-") : BV.Bits × String := (v', bvObs B v' res)
+  let doOp (op : BV.Op) : BV.Bits × String := if op.ok B v then fin (BV.step B v op) else skip
+  let blk (s : String) : Option Nat := (nat? s).bind fun i => if i < BV.size B v then some i else none
+  let bit (s : String) : Option Nat := (nat? s).bind fun j => if j < B then some j else none
+  let cnt (s : String) (mx : Nat) : Option Nat := (nat? s).bind fun j => if j ≤ mx then some j else none
+  match o with
+  | ["new", n] => match cnt n 64 with | some n => fin (BV.mk B n) | none => skip
+  | ["newv", n, b] => match cnt n 64, flag? b with | some n, some b => fin (BV.mk B n b) | _, _ => skip
+  | ["resize", n, b] => match cnt n 64, flag? b with | some n, some b => doOp (.resize n b) | _, _ => skip
+  | ["clear"] => doOp .clear
+  | ["setall"] => doOp (.assignAll true)
+  | ["unsetall"] => doOp (.assignAll false)
+  | ["set", i] => match blk i with | some i => doOp (.setBlock i) | none => skip
+  | ["reset", i] => match blk i with | some i => doOp (.resetBlock i) | none => skip
+  | ["flip", i] => match blk i with | some i => doOp (.flipBlock i) | none => skip
+  | ["set1", i, j, b] => match blk i, bit j, flag? b with | some i, some j, some b => doOp (.setOne i j b) | _, _, _ => skip
+  | ["reset1", i, j] => match blk i, bit j with | some i, some j => doOp (.setOne i j false) | _, _ => skip
+  | ["flip1", i, j] => match blk i, bit j with | some i, some j => doOp (.flipOne i j) | _, _ => skip
+  | ["asgb", i, b] => match blk i, flag? b with | some i, some b => doOp (.assignBool i b) | _, _ => skip
+  | ["asgs", i, x] => match blk i, bits? B x with | some i, some x => doOp (.assignBits i x) | _, _ => skip
+  | ["asgr", i, k] => match blk i, blk k with | some i, some k => doOp (.assignRef i k) | _, _ => skip
+  | ["and", i, x] => match blk i, bits? B x with | some i, some x => doOp (.andBits i x) | _, _ => skip
+  | ["or", i, x] => match blk i, bits? B x with | some i, some x => doOp (.orBits i x) | _, _ => skip
+  | ["xor", i, x] => match blk i, bits? B x with | some i, some x => doOp (.xorBits i x) | _, _ => skip
+  | ["andr", i, k] => match blk i, blk k with | some i, some k => doOp (.andBits i (BV.getRepr B v k)) | _, _ => skip
+  | ["orr", i, k] => match blk i, blk k with | some i, some k => doOp (.orBits i (BV.getRepr B v k)) | _, _ => skip
+  | ["xorr", i, k] => match blk i, blk k with | some i, some k => doOp (.xorBits i (BV.getRepr B v k)) | _, _ => skip
+  | ["shl", i, n] => match blk i, cnt n 200 with | some i, some n => doOp (.shl i n) | _, _ => skip
+  | ["shr", i, n] => match blk i, cnt n 200 with | some i, some n => doOp (.shr i n) | _, _ => skip
+  | ["q", i] => match blk i with
+    | some i => fin v s!"{BV.countBlock B v i}{tf (BV.anyBlock B v i)}{tf (BV.noneBlock B v i)}{tf (BV.allBlock B v i)}"
+    | none => skip
+  | ["not", i] => match blk i with | some i => fin v (bitsStr (BV.bNot (BV.getRepr B v i))) | none => skip
+  | ["shlq", i, n] => match blk i, cnt n 200 with | some i, some n => fin v (bitsStr (BV.bShl (BV.getRepr B v i) n)) | _, _ => skip
+  | ["shrq", i, n] => match blk i, cnt n 200 with | some i, some n => fin v (bitsStr (BV.bShr (BV.getRepr B v i) n)) | _, _ => skip
+  | ["eqs", i, x] => match blk i, bits? B x with
+    | some i, some x => let e := BV.equalsBits B v i x; fin v (tf e ++ tf (!e))
+    | _, _ => skip
+  | ["eqr", i, k] => match blk i, blk k with
+    | some i, some k => let e := BV.equalsBits B v i (BV.getRepr B v k); fin v (tf e ++ tf (!e))
+    | _, _ => skip
+  | ["test", i, j] => match blk i, bit j with | some i, some j => fin v (tf (BV.getBit B v i j)) | _, _ => skip
+  | _ => skip
+
+/-! ### lru -/
+abbrev LS := LRU.State Int Int
+
+def kv (e : Int × Int) : String := s!"{e.1}:{e.2}"
+
+def lruObs (s : LS) (res : String) : String :=
+  let fr := if LRU.size s == 0 then "-" else showO (LRU.front s)
+  let bk := if LRU.size s == 0 then "-" else showO (LRU.back s)
+  let finds := (List.range 8).map fun (k : Nat) => match LRU.find s (Int.ofNat k) with | some e => toString e.2 | none => "-"
+  s!"{LRU.size s} {fr} {bk} {strList ((LRU.abs s).map kv)} {strList finds} {res}"
+
+def key? (s : String) : Option Int := (nat? s).bind fun k => if k < 1000 then some (k : Int) else none
+
+def lruStep (s : LS) (o : List String) : LS × String :=
+  let skip := (s, "skip")
+  let fin (s' : LS) (res : String := "-") : LS × String := (s', lruObs s' res)
+  let doOp (op : LRU.Op Int Int) (res : LS → String := fun _ => "-") : LS × String :=
+    if op.ok s then let s' := LRU.step s op; fin s' (res s') else skip
+  let touchOp (k : Int) : LS × String :=
+    match LRU.touch s k with
+    | some r => fin (LRU.step s (.touch k)) (showO r.2)
+    | none => fin (LRU.step s (.touch k)) "ERR:Range"
+  match o with
+  | ["ins", k, v] => match key? k, int? v with
+    | some k, some v => doOp (.insert k v) (fun s' => showO (LRU.front s'))
+    | _, _ => skip
+  | ["touch", k] => match key? k with | some k => touchOp k | none => skip
+  | ["ins1", k] => match key? k with | some k => touchOp k | none => skip
+  | ["find", k] => match key? k with
+    | some k => fin s (match LRU.find s k with | some e => kv e | none => "E")
+    | none => skip
+  | ["popf"] => doOp .popFront
+  | ["popb"] => doOp .popBack
+  | ["resize", n] => match nat? n with | some n => doOp (.resize n) | none => skip
+  | ["clear"] => doOp .clear
+  | _ => skip
+
+def handle (line : String) : String :=
+  let (head, ops) := parseCase line
+  match head with
+  | ["al", p] => match int? p with
+    | some p =>
+      if p == 0 || p == 1 || p == 2 || p == 3 || p == 4 || p == 7 then
+        runOps (alStep (AL.chunkSize p)) ⟨AL.empty, []⟩ ops
+      else "bad-op"
+    | none => "bad-op"
+  | ["sl"] => runOps slStep ⟨⟨SL.empty, none⟩, ⟨SL.empty, none⟩⟩ ops
+  | ["rv", p] => match nat? p with
+    | some n => if n == 1 || n == 2 || n == 4 || n == 7 then runOps (rvStep n) ⟨RV.empty n 0, RV.empty n 0⟩ ops else "bad-op"
+    | none => "bad-op"
+  | ["bv", p] => match nat? p with
+    | some B => if B == 1 || B == 3 || B == 8 || B == 33 then runOps (bvStep B) [] ops else "bad-op"
+    | none => "bad-op"
+  | ["lru"] => runOps lruStep LRU.empty ops
+  | _ => "bad-op"
+
+end C11Drv
+
+def main : IO Unit := DV.runDriver C11Drv.handle
